@@ -73,6 +73,7 @@ fn bs(i: usize, with_txs: bool, parent: Option<u16>) -> BlockSpec {
                 routers: vec![],
                 with_path: false,
                 max_inputs: 2,
+                nft: false,
             }]
         } else {
             vec![]
